@@ -806,6 +806,9 @@ package s3db
 //@   modifies puts, deletes, lastPutPrefix, lastPutName, lastPutOK, tables[tableName].Tree.Root, historyDeletions, historyHandle, historySnapshot
 //@   ensures readonly: imp(has(tables, tableName) && tables[tableName] != nil && old(tables[tableName].Tree.Root.readonly), puts == old(puts) && deletes == old(deletes))
 // C09: if history was deleted, it was deleted for the version the table shows from now on (the nodes of THAT version were protected)
+// C04: a vacuum that fails before its purged tree was committed leaves the table's handle alone (the handle of a
+// failed commit holds nodes that are marked stored but never reached the store: it must not become the table's)
+//@   ensures failed-before-commit-keeps-handle: imp(result != nil && historyDeletions == old(historyDeletions) && has(tables, tableName) && tables[tableName] != nil, tables[tableName].Tree.Root == old(tables[tableName].Tree.Root))
 //@   ensures history-deleted-for-the-shown-version: imp(historyDeletions != old(historyDeletions), historyDeletions == old(historyDeletions) + 1 && int(tables[tableName].Tree.Root) == historyHandle && int(vacRoot(tableName)) == historySnapshot)
 // C09: the rows a statement sees through this table are exactly what they were, whatever the outcome
 //@   ensures rows-unchanged: forall a int :: imp(has(tables, tableName) && tables[tableName] != nil,
